@@ -711,6 +711,9 @@ func NewOpLib() *OpLib {
 		}
 		p.Txs = one("lp1", &ctypes.MsgVest{Creator: w.A("lp1").Addr.String(), Denom: "ueden", Amount: amt})
 	})
+	l.Add("vest_liquid_uatom_lp1", "vest", 0, func(w *World, p *BlockPlan) {
+		p.Txs = one("lp1", &ctypes.MsgVestLiquid{Creator: w.A("lp1").Addr.String(), Amount: I(1000000), Denom: "uatom"})
+	})
 	l.Add("cancel_vest_lp1", "cancelvest", 0, func(w *World, p *BlockPlan) {
 		cm := w.App.CommitmentKeeper.GetCommitments(w.RCtx(), w.A("lp1").Addr)
 		amt := I(1)
